@@ -153,11 +153,11 @@ def obligations():
 COLLAPSE_HELP = HELP + '''
 static void tuple_ids(const TK *m, int c, int *out) { int hf = CHF(m, c, 0); out[0] = m->ghost_v.data[spec_hf_vertex(m, hf, 0)]; out[1] = m->ghost_v.data[spec_hf_vertex(m, hf, 1)]; out[2] = m->ghost_v.data[spec_hf_vertex(m, hf, 2)]; int ap = spec_apex(m, c, hf); out[3] = ap >= 0 ? m->ghost_v.data[ap] : -1; }
 '''
-def collapse_obligations():
+def collapse_obligations(shape='twotets', nhe=18):
     obs = []
     for dfr in (0, 1):
         for fast in (0, 1):
-            n = 'collapse_edge.deferred%d_fast%d' % (dfr, fast)
+            n = 'collapse_edge.%s.deferred%d_fast%d' % (shape, dfr, fast)
             pre = '  TK m; { static const int W0[] = {SHAPE_W}; int aa[4]; unwitness(W0, &m, aa); }\n  m.deferred_deletion_ = %d; m.fast_deletion_ = %d;\n  for (int i = 0; i < 5; i++) m.ghost_v.data[i] = 100 + i;' % (dfr, fast)
             args = '  int he = ENUM_HE;'
             call = '  struct HEH hh; hh.idx_ = he; ret = %scollapse_edge(%s, hh).idx_;' % (P, M)
@@ -179,13 +179,14 @@ def collapse_obligations():
             d = dict(DEFS); d.update(LC=4, PC=4, LE=12, PE=12, LF=10, PF=10, VSTD_CAP_DEFAULT=26)
             obs.append(Ob(id='C15.' + n, props=['C15', 'C03'], quick_for=[], tu='tethex', cfg='tet', tier='B', roots=[TET + '::collapse_edge'] + ROOTS_BUILD, harness=mh,
                           includes=['wf.h', 'view.h', 'add_spec.h', 'query_spec.h', 'circ_spec.h', 'shapes.h'], copies=[TK], defines=d, unwind=30, covers=1, timeout=6000, mem_gb=24,
-                          inits={'tk_init': TK}, adaptive_unwind=True, unwind_start=10, prebuild_shape=SHAPES['twotets'], preamble_after=COLLAPSE_HELP, enum=[('ENUM_HE', range(18))],
-                          bounds=dict(shape='twotets', halfedge='all 18 halfedges of the shape, one CBMC run each', deferred=dfr, fast=fast),
+                          inits={'tk_init': TK}, adaptive_unwind=True, unwind_start=10, prebuild_shape=SHAPES[shape], preamble_after=COLLAPSE_HELP, enum=[('ENUM_HE', range(nhe))],
+                          bounds=dict(shape=shape, halfedge='all %d halfedges of the shape, one CBMC run each' % nhe, deferred=dfr, fast=fast),
                           note='collapse_edge on two tetrahedra glued on a face (every edge satisfies the link condition), any halfedge, deferred deletion %s, fast deletion %s: resulting cells, surviving handle (tracked by a ghost vertex property), well-formedness' % ('on' if dfr else 'off', 'on' if fast else 'off')))
     return obs
 _base_tet = obligations
 def obligations():
-    # collapse_obligations() is NOT registered: one enumerated instance (a single concrete halfedge) needs more than 24 GB / 20 minutes
-    # in CBMC (the collapse runs circulators, set operations, four cascaded deletions and a garbage collection); kept for
-    # reference, see DESIGN S6 (the C15 seed is therefore not caught)
-    return _base_tet()
+    # collapse_edge: registered on the single tetrahedron (12 halfedges x 4 modes, about 90 s per enumerated instance).
+    # On the two-tets shape one concrete instance exceeds 24 GB / 20 minutes in CBMC (circulators, set operations, four
+    # cascaded deletions and a garbage collection); that variant stays unregistered - the clause "a replaced by b in the
+    # surviving cells" is therefore not decided (see DESIGN S6).
+    return _base_tet() + collapse_obligations('tet', 12)
